@@ -23,7 +23,10 @@ RULE = (
     "nonlinear term + the same reference integrator. C: measured convergence order against "
     "scipy.solve_ivp(DOP853, 1e-13) on smooth problems (corroboration; a low slope counts only together "
     "with a step mismatch). Non-trivial: |z| spread over >= 3 decades or a zero/complex stratum (A); "
-    "nonlinear contribution dt*|N|/|u| > 1e-6 (B); distinct = distinct serialised case."
+    "nonlinear contribution dt*|N|/|u| > 1e-6 (B); distinct = distinct serialised case. Siblings: two "
+    "configurations that differ in exactly one constructor argument (order, dt, L, one coefficient, fraction, "
+    "contour, N, one flag) are built and called in the history A, B, A (old object), A (fresh object); every "
+    "call is compared with the reference model of its own configuration (state leaking between objects/calls)."
 )
 ASSUMPTIONS = [
     "float64 session",
@@ -237,22 +240,19 @@ def b_strategy(stratum, tier):
     )
 
 
-def b_check(case):
-    res = R()
-    spec = case["spec"]
+def _b_eval(res, spec, state, key, S=None, suffix=""):
+    """one stepper call against the reference model; returns the stepper object (None if construction failed)"""
     D, N = spec["D"], spec["N"]
     p = model.order_of(spec)
-    fam = case["fam"]
-    key = "C02:stepper:%s:order%d" % (spec["cls"], p)
-    res.tag("B", fam, "D%d" % D, "order%d" % p, "N%s" % ("odd" if N % 2 else "even"))
     C = model.num_channels(spec)
-    u = orc.make_state(case["state"], C, D, N)
-    ok, S = res.lib("construct", reg.build, spec, key=key)
+    u = orc.make_state(state, C, D, N)
+    if S is None:
+        ok, S = res.lib("construct" + suffix, reg.build, spec, key=key)
+        if not ok:
+            return None
+    ok, got = res.lib("call" + suffix, S, jnp.asarray(u), key=key)
     if not ok:
-        return res
-    ok, got = res.lib("call", S, jnp.asarray(u), key=key)
-    if not ok:
-        return res
+        return S
     got = np.asarray(got)
     rec = []
     want, lam = model.model_step(spec, u, record=rec)
@@ -266,13 +266,131 @@ def b_check(case):
     # physical-space comparison: FFT of size N^D spreads a spectral error of size s to <= s (sum / N^D)
     zmax = float(np.max(np.abs(z)))
     tol = 1e-10 * (1 + 1e-3 * zmax) * S_hat
-    if res.true("shape", got.shape == want.shape, key=key, msg=str(got.shape)):
+    if res.true("shape" + suffix, got.shape == want.shape, key=key, msg=str(got.shape)):
         gh = orc.rfftn(got)
         wh = orc.rfftn(want)
-        res.claim("step_equals_reference_model", float(np.max(np.abs(gh - wh))), tol, key=key)
-    res.nontrivial = bool(p >= 1 and nmax * abs(dt) > 1e-6 * float(np.max(Uh)))
+        res.claim("step_equals_reference_model" + suffix, float(np.max(np.abs(gh - wh))), tol, key=key)
+    res.nontrivial = bool(res.nontrivial or (p >= 1 and nmax * abs(dt) > 1e-6 * float(np.max(Uh))))
     if np.max(np.abs(lam.imag)) > 0:
         res.tag("complex_symbol")
+    return S
+
+
+def b_check(case):
+    res = R()
+    spec = case["spec"]
+    D, N = spec["D"], spec["N"]
+    p = model.order_of(spec)
+    fam = case["fam"]
+    key = "C02:stepper:%s:order%d" % (spec["cls"], p)
+    res.tag("B", fam, "D%d" % D, "order%d" % p, "N%s" % ("odd" if N % 2 else "even"))
+    _b_eval(res, spec, case["state"], key)
+    return res
+
+
+# ------------------------------------------------------------------ B'': construction / call histories ("siblings")
+# Two steppers that differ in exactly ONE constructor argument are built and called in the order A, B, A (old
+# object), A (fresh object): every call must still equal the reference model of its own configuration. With
+# continuous draws two configurations never share (D, N, L, dt), so state that leaks between objects or calls
+# (a cache keyed on too few arguments, a default evaluated once, a class attribute) would otherwise stay invisible.
+
+VARIATIONS = ["order", "dt", "L", "coef", "coef2", "fraction", "contour", "N", "flag"]
+
+
+def _vary(spec, how, factor):
+    """copy of `spec` with one argument changed (None if the variation does not apply to this class)"""
+    import copy
+
+    s = copy.deepcopy(spec)
+    kw = s["kw"]
+    no_l_dt = spec["cls"] in reg.NO_L_DT
+    if how == "order":
+        kw["order"] = (model.order_of(spec) % 4) + 1
+    elif how == "dt":
+        if no_l_dt:
+            return None
+        s["dt"] = float("%.6g" % (spec["dt"] * factor))
+    elif how == "L":
+        if no_l_dt:
+            return None
+        s["L"] = float("%.6g" % (float(spec["L"]) * factor))
+    elif how in ("coef", "coef2"):
+        names = sorted(k for k, v in kw.items() if k not in ("order", "dealiasing_fraction", "circle_radius", "num_circle_points", "injection_mode", "maximum_absolute")
+                       and not isinstance(v, bool) and (isinstance(v, (int, float)) or (isinstance(v, list) and v)))  # fmt: skip
+        if not names:
+            return None
+        name = names[0] if how == "coef" else names[-1]
+        v = kw[name]
+        if isinstance(v, list):
+            nz = [i for i, x in enumerate(v) if x != 0]
+            i = nz[-1] if nz else len(v) - 1
+            v = list(v)
+            v[i] = float(v[i]) * factor if v[i] != 0 else 0.1 * factor
+            kw[name] = v
+        else:
+            kw[name] = float(v) * factor if v != 0 else 0.1 * factor
+    elif how == "fraction":
+        f = kw.get("dealiasing_fraction", 2 / 3)
+        if spec["cls"].endswith("PolynomialStepper") or spec["cls"] in ("AllenCahn", "CahnHilliard", "SwiftHohenberg", "GrayScott"):
+            return None  # cubic terms: only 1/2 is alias-free; leave the documented default
+        kw["dealiasing_fraction"] = 0.5 if f > 0.6 else 2 / 3
+    elif how == "contour":
+        r_ = kw.get("circle_radius", 1.0)
+        kw["circle_radius"] = 2.0 if r_ != 2.0 else 1.0
+        kw["num_circle_points"] = 32
+    elif how == "N":
+        s["N"] = spec["N"] + 1
+        if "injection_mode" in kw and kw["injection_mode"] > (s["N"] - 1) // 2:
+            return None
+        if spec["cls"].startswith("Difficulty"):
+            return None  # difficulties are defined relative to N: a different N is a different PDE, still fine, but keep one change
+    elif how == "flag":
+        flags = sorted(k for k, v in kw.items() if isinstance(v, bool))
+        if not flags:
+            return None
+        k = flags[int(factor * 10) % len(flags)]
+        kw[k] = not kw[k]
+    else:
+        return None
+    if not no_l_dt and how in ("dt", "L", "coef", "coef2", "N"):
+        s = configs.cap_growth(s)
+    return s
+
+
+def sib_strategy(stratum, tier):
+    f, D, N = stratum["fam"], stratum["D"], stratum["N"]
+    return st.fixed_dictionaries(
+        dict(
+            spec=configs.st_spec(f, D, N, orders=(1, 2, 3, 4), contour=False, frac_choice=False),
+            state=gens.st_white(0.1, 1.0),
+            fam=st.just(f),
+            how=st.sampled_from(VARIATIONS),
+            factor=st.sampled_from([2.0, 0.5, 1.25, -1.0, 3.0]),
+        )
+    )
+
+
+def sib_check(case):
+    res = R()
+    A = case["spec"]
+    fam = case["fam"]
+    how, factor = case["how"], case["factor"]
+    if factor < 0 and (how in ("dt", "L", "N") or A["cls"] in reg.NO_L_DT):
+        factor = 1.5  # no sign flips where the growth cannot be capped through dt
+    B = _vary(A, how, factor)
+    if B is None:  # variation not applicable to this class: fall back to a coefficient change
+        how = "coef"
+        B = _vary(A, how, factor)
+    res.tag("siblings", fam, "D%d" % A["D"], "vary:" + how)
+    if B is None or B == A:
+        res.tag("siblings:no_variation")
+        return res
+    key = "C02:siblings:%s:%s" % (A["cls"], how)
+    SA = _b_eval(res, A, case["state"], key, suffix=":A_first")
+    _b_eval(res, B, case["state"], key, suffix=":B_after_A")
+    if SA is not None:
+        _b_eval(res, A, case["state"], key, S=SA, suffix=":A_again_same_object")
+    _b_eval(res, A, case["state"], key, suffix=":A_again_fresh_object")
     return res
 
 
@@ -449,6 +567,7 @@ def c_check(case):
 SUBS = [
     Sub("integrator", a_check, strata=a_strata, strategy=a_strategy, n=(4, 40)),
     Sub("stepper", b_check, strata=b_strata, strategy=b_strategy, n=(4, 15)),
+    Sub("siblings", sib_check, strata=b_strata, strategy=sib_strategy, n=(1, 6)),
     Sub("lattice", lat_check, strata=lat_strata, strategy=lat_strategy, n=(10, 60)),
     Sub("convergence", c_check, strata=c_strata, strategy=c_strategy, n=(1, 4)),
 ]
